@@ -62,20 +62,21 @@ def num_of(name):
 
 # ---------------------------------------------------------------- generation
 def gen_case(r):
-    nfiles = r.range(3, 5)
+    multi = r.chance(1, 4)   # several archives, several --exclude-libs options
+    nfiles = r.range(5, 6) if multi else r.range(3, 5)
     files = []
     lib = 0
-    out = r.choice(["s", "s", "pie", "exe"])
+    out = "s" if multi else r.choice(["s", "s", "pie", "exe"])
     for k in range(nfiles):
         if k == 0:
             kind = "obj"
         elif k == 1 and out != "s":
             kind = "so"      # a dynamically linked executable needs a shared object on the line
         else:
-            kind = r.choice(["obj", "obj", "ar", "ar", "so"])
+            kind = r.choice(["ar", "ar", "ar", "obj"]) if multi else r.choice(["obj", "obj", "ar", "ar", "so"])
         f = {"kind": kind, "syms": []}
         if kind == "ar":
-            if files and files[-1]["kind"] == "ar" and r.chance(1, 3):
+            if files and files[-1]["kind"] == "ar" and r.chance(1, 3) and not multi:
                 f["lib"] = files[-1]["lib"]
             else:
                 lib += 1
@@ -142,12 +143,12 @@ def gen_case(r):
     if r.chance(1, 3):
         cfg["vs"] = [n for n in names if r.chance(1, 3)]
     libs = sorted({f["lib"] for f in files if f["kind"] == "ar"})
-    if libs and r.chance(1, 2):
+    if libs and (multi or r.chance(1, 2)):
         names = [f"liba{g}.a" for g in libs]
-        if len(names) >= 2 and r.chance(1, 2):
+        if len(names) >= 2 and (multi or r.chance(1, 2)):
             k = r.range(2, len(names))
             cfg["excl"] = r.shuffle(names)[:k]
-            cfg["excl_how"] = r.choice(["comma", "colon", "separate", "separate"])
+            cfg["excl_how"] = r.choice(["comma", "colon", "separate", "separate", "separate"])
         else:
             cfg["excl"] = r.choice(["ALL"] + names)
     return files, cfg
@@ -438,8 +439,17 @@ def run(ctx):
             ctx.count("outcome", "linked-both")
             so_defined = {t["n"] for f in files if f["kind"] == "so" for t in f["syms"] if t["def"]}
             restrict = (lambda S: S) if cfg["out"] == "s" else (lambda S: S & so_defined)
-            bad_x = X ^ XL
-            bad_i = restrict(I) ^ restrict(IL)
+            # Names with a definition in an archive member AND another definition elsewhere: which member takes part can
+            # differ between wild (first definer in command-line order is requested) and ld/lld (a weak definition already
+            # loaded satisfies the reference) - that is C03's subject, so the oracles are not consulted for those names.
+            definers = {}
+            for k2, f2 in enumerate(files):
+                for t in f2["syms"]:
+                    if t["def"] and not t.get("local"):
+                        definers.setdefault(t["n"], []).append(f2["kind"])
+            ambiguous = {n for n, ks in definers.items() if len(ks) >= 2 and "ar" in ks}
+            bad_x = (X ^ XL) - ambiguous
+            bad_i = (restrict(I) ^ restrict(IL)) - ambiguous
             if bad_x or bad_i:
                 outq = os.path.join(d, "out.lld")
                 rcq, oq, eq = lu.link("lld", ["-o", outq] + args, cwd=d)
